@@ -738,7 +738,116 @@ def emit_skeleton(a, b, K):
 DEFAULT_SKELETON = (0, 0, 1)
 
 
-ITEMS = ("bufferSize", "pathIndicatesDirectory", "concatPaths", "docTables", "prettyPath2", "prettyPath1", "formatSkeleton")
+# ---- round four: hasPrefix / hasSuffix (stringutility.hh) -------------------------------------------------------
+def template_body(su, name):
+    m = re.search(r"\bbool\s+%s\s*\(\s*const\s+(\w+)\s*&\s*(\w+)\s*,\s*const\s+char\s*\*\s*(\w+)\s*\)\s*\{" % name, su)
+    if not m:
+        raise TranslateError("definition of %s(const C&, const char*) not found" % name)
+    depth, i = 1, m.end()
+    while i < len(su) and depth:
+        depth += {"{": 1, "}": -1}.get(su[i], 0)
+        i += 1
+    body = su[m.end():i - 1]
+    if "{" in body:
+        raise TranslateError("%s: compound statement outside the grammar" % name)
+    return m.group(1), m.group(2), m.group(3), body
+
+
+def size_cmp(t, c, lenv):
+    """comparison between c.size() and the length variable -> (lean proposition, python predicate(csize, len))"""
+    t = t.strip()
+    neg = False
+    m = re.fullmatch(r"!\s*\((.*)\)", t, re.S)
+    if m:
+        neg, t = True, m.group(1).strip()
+    size = r"%s\s*\.\s*(?:size|length)\s*\(\s*\)" % re.escape(c)
+    m = re.fullmatch(size + r"\s*(<=|>=|<|>)\s*" + re.escape(lenv), t)
+    if m:
+        op, swap = m.group(1), False
+    else:
+        m = re.fullmatch(re.escape(lenv) + r"\s*(<=|>=|<|>)\s*" + size, t)
+        if not m:
+            raise TranslateError("size test outside the grammar: %r" % t)
+        op, swap = m.group(1), True
+    lean_op = {"<": "<", ">": ">", "<=": "≤", ">=": "≥"}[op]
+    lean = ("len %s c.length" if swap else "c.length %s len") % lean_op
+    import operator
+    f = {"<": operator.lt, ">": operator.gt, "<=": operator.le, ">=": operator.ge}[op]
+    pred = (lambda cs, ln: f(ln, cs)) if swap else (lambda cs, ln: f(cs, ln))
+    if neg:
+        return "¬ (%s)" % lean, (lambda cs, ln, pred=pred: not pred(cs, ln))
+    return lean, pred
+
+
+def prefix_suffix(su, name):
+    """-> lean lines of `def <name> (c pat : Str) : Bool`"""
+    ctype, c, pat, body = template_body(su, name)
+    stmts = [re.sub(r"\s+", " ", x.strip()) for x in split_top(body, ";")]
+    if stmts and stmts[-1] == "":
+        stmts.pop()
+    lenv, it, lines, guards, done = None, None, [], [], False
+    for s in stmts:
+        if done:
+            raise TranslateError("%s: statement after the return: %r" % (name, s))
+        m = re.fullmatch(r"(?:const )?(?:std::size_t|size_t|auto)(?: const)? (\w+) ?= ?(?:std::)?strlen ?\( ?%s ?\)" % re.escape(pat), s)
+        if m and lenv is None:
+            lenv = m.group(1)
+            lines.append("let len := pat.length")
+            continue
+        if lenv is None:
+            raise TranslateError("%s: the pattern length is not taken with strlen first: %r" % (name, s))
+        ci = split_if(s)
+        if ci and re.fullmatch(r"return false", ci[1]):
+            lean, pred = size_cmp(ci[0], c, lenv)
+            guards.append(pred)
+            lines.append("if %s then false else" % lean)
+            continue
+        m = re.fullmatch(r"(?:typename %s ?:: ?const_iterator|auto) (\w+) ?= ?(?:%s ?\. ?c?begin ?\( ?\)|std::c?begin ?\( ?%s ?\))" % (re.escape(ctype), re.escape(c), re.escape(c)), s)
+        if m and it is None:
+            it = m.group(1)
+            lines.append("let it := c")
+            continue
+        size = r"%s ?\. ?(?:size|length) ?\( ?\)" % re.escape(c)
+        m = re.fullmatch(r"std::advance ?\( ?(\w+) ?, ?%s ?- ?%s ?\)" % (size, re.escape(lenv)), s) or \
+            re.fullmatch(r"(\w+) ?\+= ?%s ?- ?%s" % (size, re.escape(lenv)), s)
+        if m and it is not None and m.group(1) == it:
+            lines.append("let it := it.drop (c.length - len)")
+            continue
+        m = re.fullmatch(r"return (?:(.*?) ?&& ?)?std::equal ?\( ?%s ?, ?%s ?\+ ?%s ?, ?(.*?) ?\)" % (re.escape(pat), re.escape(pat), re.escape(lenv)), s)
+        if m:
+            start = m.group(2).strip()
+            if it is not None and start == it:
+                where = "it"
+            elif re.fullmatch(r"%s ?\. ?c?begin ?\( ?\)|std::c?begin ?\( ?%s ?\)" % (re.escape(c), re.escape(c)), start):
+                where = "c"
+            else:
+                raise TranslateError("%s: std::equal starts at %r" % (name, start))
+            conj = None
+            if m.group(1) is not None:
+                lean, conj = size_cmp(m.group(1), c, lenv)
+                lines.append("decide (%s) && equalRange pat %s" % (lean, where))
+            else:
+                lines.append("equalRange pat %s" % where)
+            # std::equal must only be reached when the container has at least len elements
+            for cs in range(0, 4):
+                for ln in range(0, 4):
+                    reached = not any(g(cs, ln) for g in guards) and (conj is None or conj(cs, ln))
+                    if reached and cs < ln:
+                        raise TranslateError("%s: std::equal can be reached with a container shorter than the pattern" % name)
+            done = True
+            continue
+        raise TranslateError("%s: statement outside the grammar: %r" % (name, s))
+    if not done:
+        raise TranslateError("%s: no 'return ... std::equal(...)'" % name)
+    return ["def %s (c pat : Str) : Bool :=" % name] + ["  " + x for x in lines]
+
+
+DEFAULT_HASPREFIX = ["def hasPrefix (c pat : Str) : Bool :=", "  let len := pat.length", "  decide (c.length ≥ len) && equalRange pat c"]
+DEFAULT_HASSUFFIX = ["def hasSuffix (c pat : Str) : Bool :=", "  let len := pat.length", "  if c.length < len then false else",
+                     "  let it := c", "  let it := it.drop (c.length - len)", "  equalRange pat it"]
+
+
+ITEMS = ("hasPrefix", "hasSuffix", "bufferSize", "pathIndicatesDirectory", "concatPaths", "docTables", "prettyPath2", "prettyPath1", "formatSkeleton")
 
 
 def analyse(repo):
@@ -750,6 +859,16 @@ def analyse(repo):
         status["bufferSize"] = None
     except (TranslateError, OSError) as ex:
         cap, status["bufferSize"] = DEFAULT_BUFFER, str(ex)
+    try:
+        hasp = prefix_suffix(su, "hasPrefix")
+        status["hasPrefix"] = None
+    except (TranslateError, NameError) as ex:
+        hasp, status["hasPrefix"] = DEFAULT_HASPREFIX, str(ex)
+    try:
+        hass = prefix_suffix(su, "hasSuffix")
+        status["hasSuffix"] = None
+    except (TranslateError, NameError) as ex:
+        hass, status["hasSuffix"] = DEFAULT_HASSUFFIX, str(ex)
     try:
         pc = strip_comments(open(os.path.join(repo, "dune/common/path.cc")).read())
     except OSError as ex:
@@ -787,7 +906,7 @@ def analyse(repo):
     except (TranslateError, OSError) as ex:
         tables, status["docTables"] = DEFAULT_TABLES, str(ex)
     return dict(bufferSize=cap, indicates=ind, concat=con, tables=tables, status=status, pretty2=pretty2, pretty1=pretty1,
-                skeleton=skeleton)
+                skeleton=skeleton, hasPrefix=hasp, hasSuffix=hass)
 
 
 def status(repo):
@@ -800,6 +919,12 @@ def translate(repo):
     out = ["-- GENERATED by tools/translators/tr_c18.py from dune/common/stringutility.hh and dune/common/path.cc -- do not edit",
            "import DuneVerif.Model.C18.Str",
            "namespace DV.C18",
+           "",
+           "/-- `Dune::hasPrefix` (stringutility.hh): `strlen`, the size test, `std::equal` from `c.begin()` -/",
+           "\n".join(a["hasPrefix"]),
+           "",
+           "/-- `Dune::hasSuffix` (stringutility.hh): `strlen`, the size test, `std::advance(it, c.size()-len)`, `std::equal` from `it` -/",
+           "\n".join(a["hasSuffix"]),
            "",
            "/-- `static const int bufferSize` / `char buffer[bufferSize]` of Dune::formatString -/",
            "def bufferSize : Nat := %d" % a["bufferSize"],
